@@ -243,7 +243,10 @@ def stage_a(ctx):
     b2 = ctx.tlc(sdir, "MC_Classify.tla", "MC_Classify_markleak.cfg", timeout=300, workers=4, count=False)
     if b2["inv"] != "RegistryFree":
         raise vlib.InfraError("Classify instance whose MarkActive keeps the table's lock when the sweeper was faster should violate RegistryFree, got %s" % b2["inv"])
-    ctx.stage("A", invariants=["NoBytes", "NoEarlyClose", "KeepsReading", "MatchSound", "ConsumeExact", "FoundWhenComplete",
+    b3 = ctx.tlc(sdir, "MC_Classify.tla", "MC_Classify_shareddl.cfg", timeout=300, workers=4, count=False)
+    if b3["inv"] != "DeadlineUnpredictable":
+        raise vlib.InfraError("Classify instance whose deadline comes from the generator the legacy phantom selection seeds should violate DeadlineUnpredictable, got %s" % b3["inv"])
+    ctx.stage("A", invariants=["DeadlineUnpredictable", "NoBytes", "NoEarlyClose", "KeepsReading", "MatchSound", "ConsumeExact", "FoundWhenComplete",
                                "NeverDropsMatching", "MarkedUsed", "RegistryFree", "Recognised", "Terminates"],
               nonvacuity="instance with obfs4 giving up before the handshake completes violates %s; instance whose MarkActive returns without "
               "unlocking when the sweeper removed the registration first violates RegistryFree" % b["inv"])
